@@ -78,6 +78,9 @@ fn digits(s: &str) -> bool {
 
 /// Date literal: -?YYYY(Y*)-MM-DD, four or more year digits, more than four only without a leading zero.
 pub fn parse_date(t: &str) -> Option<RDate> {
+  if !t.is_ascii() {
+    return None; // a literal is written with ASCII characters only
+  }
   let (neg, body) = match t.strip_prefix('-') {
     Some(r) => (true, r),
     None => (false, t),
@@ -125,6 +128,9 @@ pub fn valid_zone_id(id: &str, known: &dyn Fn(&str) -> bool) -> bool {
 /// Time literal hh:mm:ss(.f+)? followed by nothing, Z, +hh:mm(:ss)?, -hh:mm(:ss)? or @Zone/Id.
 /// Returns Err(true) for "unspecified" spellings, Err(false) for invalid ones (offset minutes / seconds of 60 and above are invalid).
 pub fn parse_time(t: &str, known_zone: &dyn Fn(&str) -> bool) -> Result<RTime, bool> {
+  if !t.is_ascii() {
+    return Err(false);
+  }
   let b = t.as_bytes();
   if b.len() < 8 || b[2] != b':' || b[5] != b':' {
     return Err(false);
@@ -236,6 +242,9 @@ pub fn print_date_time(d: &RDateTime) -> String {
 
 /// Days-and-time duration in nanoseconds. Err(true): beyond nanosecond precision / representable range (unspecified).
 pub fn parse_dt_duration(t: &str) -> Result<i128, bool> {
+  if !t.is_ascii() {
+    return Err(false);
+  }
   let (neg, body) = match t.strip_prefix('-') {
     Some(r) => (true, r),
     None => (false, t),
@@ -339,6 +348,9 @@ pub fn print_dt_duration(n: i128) -> String {
 
 /// Years-and-months duration in months.
 pub fn parse_ym_duration(t: &str) -> Result<i128, bool> {
+  if !t.is_ascii() {
+    return Err(false);
+  }
   let (neg, body) = match t.strip_prefix('-') {
     Some(r) => (true, r),
     None => (false, t),
